@@ -6,7 +6,8 @@ FIXTURE = os.path.join(VERIF, "selftest", "fixtures", "alias_fix.c")
 EXPECT = {"fix_stale_ptr": ("R-STALE", "stale:up"), "fix_clobber_order": ("R-CLOBBER", "clobber:v:w"),
           "fix_extent_carry": ("R-EXTENT", "overrun:w"), "fix_alias_good": None, "fix_alias_guarded": None,
           "fix_constsrc_scratch": ("R-CONSTSRC", "constsrc:u"), "fix_constsrc_guarded": None,
-          "fix_view_alias": ("R-CLOBBER", "view-alias:v:w"), "fix_view_local": None}
+          "fix_view_alias": ("R-CLOBBER", "view-alias:v:w"), "fix_view_local": None,
+          "fix_size_exceeds": ("R-EXTENT", "size-exceeds-alloc:w")}
 
 
 def run(prop="C05", tier="quick", rules=("R-STALE", "R-CLOBBER", "R-OVERLAP", "R-CONSTSRC")):
@@ -34,8 +35,8 @@ def run(prop="C05", tier="quick", rules=("R-STALE", "R-CLOBBER", "R-OVERLAP", "R
         r["obligations"] += st.get("constsrc_obligations", 0)
         r["undecided"] = r.get("undecided", 0) + st.get("constsrc_undecided", 0)
     if "R-EXTENT" in rules:
-        r["obligations"] += st.get("extent_obligations", 0)
-        r["undecided"] = r.get("undecided", 0) + st.get("extent_undecided", 0)
+        r["obligations"] += st.get("extent_obligations", 0) + st.get("sizestore_obligations", 0)
+        r["undecided"] = r.get("undecided", 0) + st.get("extent_undecided", 0) + st.get("sizestore_undecided", 0)
     r["notes"].append("fixtures: 2 positive fired, 2 negative silent; %d reviewed exception sites (spec/alias_exceptions.tsv)" % 5)
     r["samples"].append(dict(rule="aliasflow", functions=st.get("functions"), realloc_events=st.get("realloc_events"),
                              limb_pointer_uses=st.get("limb_pointer_uses"), input_reads=st.get("input_reads"),
